@@ -149,6 +149,35 @@ func judgeC16(c ReqCase) *Fail {
 		}
 		sel[id] = rm
 	}
+	// "selects criteria with the same count/ordering rule as omission": with weakest / strongest no unselected criterion
+	// is less / more important than a selected one under the method's documented importance (recomputed from the
+	// request; judged where the reversal is the first bias, so that the request's own parameters apply)
+	if ordering := str(x.props["ordering"]); len(prefixNames(x.v)) == 1 && (ordering == "" || ordering == "weakest" || ordering == "strongest") {
+		if imp, ok := refImportance(x.v, x.before); ok {
+			scale := 1.0
+			for _, w := range imp {
+				scale = math.Max(scale, math.Abs(w))
+			}
+			tol := 1e-9 * scale
+			if exactImportance(x.v.Method) {
+				tol = 0
+			}
+			st.inc("C16:ordering-checked")
+			for s := range sel {
+				for _, cv := range x.before.Crit {
+					if sel[cv.Id] != nil {
+						continue
+					}
+					if ordering == "strongest" && imp[s] < imp[cv.Id]-tol {
+						return failf("strongest-first", "reversed %s (importance %v) is less important than %s (%v), which is not reversed; importances %v", s, imp[s], cv.Id, imp[cv.Id], imp)
+					}
+					if ordering != "strongest" && imp[s] > imp[cv.Id]+tol {
+						return failf("weakest-first", "reversed %s (importance %v) is more important than %s (%v), which is not reversed; importances %v", s, imp[s], cv.Id, imp[cv.Id], imp)
+					}
+				}
+			}
+		}
+	}
 	exact := true
 	for _, a := range x.before.all() {
 		na := x.after.alt(a.Id)
